@@ -244,7 +244,14 @@ class MetadorNode(wrapt.ObjectProxy):
             # allow child nodes of local-only nodes to go up to the marked parent
             # (or it is None, if this is the local root)
             if lp := self._self_local_parent:
-                return lp
+                # same node as the marked parent, but keeping restrictions of this node
+                flags = {k.name: True for k in NodeAcl if lp.acl[k] or self.acl[k]}
+                return MetadorGroup(
+                    self._self_container,
+                    lp.__wrapped__,
+                    local_parent=lp._self_local_parent,
+                    **flags,
+                )
             else:
                 # raise exception (illegal non-local access)
                 self._guard_acl(NodeAcl.local_only, "parent")
